@@ -208,10 +208,6 @@ Section Rerun.
     rewrite Forall_forall in H. apply H. eapply nth_error_In; exact E.
   Qed.
 
-  (** the state a second Run of the same object starts from *)
-  Definition after_run (i : inited) (opts' args' : list container) : inited :=
-    mkInit opts' args' (i_spec i) (i_start i) (i_graph i).
-
   Theorem rerun_same_line i argv opts' args' :
     Forall plain (i_opts i) -> Forall plain (i_args i) ->
     Forall (fun c => ct_fromenv c = false) (i_opts i) ->
